@@ -8,6 +8,7 @@ CONSTANTS
   MaxBuf = 2
   RawChoices = {FALSE, TRUE}
   DevIgnoredWrite = FALSE
+  DevMutatesDoc = FALSE
   Emit = FALSE
 INVARIANTS TypeOK
 PROPERTIES ErrSurfacesLive
